@@ -60,6 +60,11 @@ impl Ctx {
     /// `key` names the failure class (stable; KNOWN_FINDINGS.json matches on it), `desc` the concrete instance
     pub fn fail(&mut self, property: &str, key: &str, desc: String, replay_json: String) {
         if self.monitor_fails.len() < 50 {
+            // also kept on disk at once: if the process dies later where nothing can be caught, the check still gets them
+            use std::io::Write as _;
+            if let Ok(mut f) = std::fs::OpenOptions::new().create(true).append(true).open(self.out.join("fails.jsonl")) {
+                let _ = writeln!(f, "{{\"property\": {}, \"key\": {}, \"desc\": {}, \"replay\": {}}}", json_str(property), json_str(key), json_str(&desc), replay_json.replace('\n', " "));
+            }
             self.monitor_fails.push((property.to_string(), key.to_string(), desc, replay_json));
         }
     }
